@@ -34,6 +34,7 @@ type c10Variant struct {
 	LayoutKeys string
 	RelExe     bool // the inspection runs an executable given by a relative path with a separator
 	Minority   bool // a third authorized functionary's valid link reports other products than the two that agree
+	MultiAlg   bool // product and material carry two digest algorithms: one agrees, the other does not (a MATCH rule compares them)
 }
 
 func (v c10Variant) String() string {
@@ -46,6 +47,9 @@ func (v c10Variant) String() string {
 	}
 	if v.Minority {
 		s += " third-link-disagrees"
+	}
+	if v.MultiAlg {
+		s += " two-digest-algorithms-one-agrees"
 	}
 	return s
 }
@@ -110,15 +114,27 @@ func buildC10(c *core.Ctx, v c10Variant, root string) (*c10Chain, error) {
 		gen.WriteLink(ch.linkDir, gen.NewLink("build", nil, gen.Artifacts(map[string]string{"bin/app": "a third opinion\n"})), X.Priv, v.DSSE)
 	}
 	app := map[string]string{"bin/app": "binary\n"}
-	gen.WriteLink(ch.linkDir, gen.NewLink("build", nil, gen.Artifacts(app)), A.Priv, v.DSSE)
+	aProducts := gen.Artifacts(app)
+	if v.MultiAlg {
+		aProducts["bin/app"] = intoto.HashObj{"sha256": aProducts["bin/app"]["sha256"], "sha512": "11" + strings.Repeat("cd", 63)}
+	}
+	gen.WriteLink(ch.linkDir, gen.NewLink("build", nil, aProducts), A.Priv, v.DSSE)
 	cProducts := gen.Artifacts(app)
+	if v.MultiAlg {
+		cProducts["bin/app"] = aProducts["bin/app"]
+	}
 	if v.Disagree {
 		cProducts = gen.Artifacts(map[string]string{"bin/app": "another binary\n"})
 	}
 	// certificate links always use the legacy wrapper (a DSSE envelope cannot carry the certificate)
 	gen.WriteLink(ch.linkDir, gen.NewLink("build", nil, cProducts), cfn.SigningKey(), false)
 	// the test link reports its material under a name that needs cleaning
-	gen.WriteLink(ch.linkDir, gen.NewLink("test", map[string]intoto.HashObj{"./bin//app": gen.Artifacts(app)["bin/app"]}, gen.Artifacts(map[string]string{"report": "ok\n"})), B.Priv, v.DSSE)
+	testMat := gen.Artifacts(app)["bin/app"]
+	if v.MultiAlg {
+		// sha256 agrees with what the build step recorded, sha512 does not
+		testMat = intoto.HashObj{"sha256": testMat["sha256"], "sha512": "00" + strings.Repeat("ab", 63)}
+	}
+	gen.WriteLink(ch.linkDir, gen.NewLink("test", map[string]intoto.HashObj{"./bin//app": testMat}, gen.Artifacts(map[string]string{"report": "ok\n"})), B.Priv, v.DSSE)
 	if v.Sublayout {
 		// a third step delegated to a sublayout
 		D := fast[4]
@@ -306,6 +322,7 @@ func runC10(c *core.Ctx) {
 			}
 			variants = append(variants, c10Variant{Threshold: 1, DSSE: dsse, RunDir: runDir, RelExe: true})
 			variants = append(variants, c10Variant{Threshold: 2, DSSE: dsse, RunDir: runDir, Minority: true})
+			variants = append(variants, c10Variant{Threshold: 1, DSSE: dsse, RunDir: runDir, MultiAlg: true})
 		}
 	}
 	names := []string{"none", "p", "q", "r"}
@@ -445,6 +462,7 @@ func runC10(c *core.Ctx) {
 		}
 	}
 	c10KeyIDHistory(c)
+	c10FailureHistory(c)
 	c.Obs("history_steps_equal_to_fresh_baseline", same)
 	c.Obs("histories_with_untouched_inputs", untouched)
 	// calibration of the runtime's map randomisation: distinct orders of a 3-element map over R ranges
@@ -534,6 +552,60 @@ func treeListing(dir string) []string {
 	return out
 }
 
+// c10FailureHistory: failed verifications leave nothing behind: a sound nested supply chain is
+// accepted however many verifications of a broken one (its sublayout lacks a link) came before.
+func c10FailureHistory(c *core.Ctx) {
+	if c.Shard != 6%c.NShards {
+		return
+	}
+	fast := gen.Fast(Pool(c))
+	ok := int64(0)
+	for _, dsse := range []bool{false, true} {
+		id := fmt.Sprintf("failure-history/dsse=%v", dsse)
+		if !c.Want(id) {
+			continue
+		}
+		build := func(name string, broken bool) (intoto.Metadata, string, error) {
+			dir := filepath.Join(c.WorkDir, "c10-failhist-"+name)
+			os.RemoveAll(dir)
+			child := &gen.Nest{Level: 1, Signer: fast[2], Prep: fast[3], Sub: fast[4], Final: fast[5], SkipLink: map[string]bool{}}
+			if broken {
+				child.SkipLink["final"] = true
+			}
+			rootN := &gen.Nest{Level: 0, Signer: fast[0], Prep: fast[1], Sub: fast[2], Final: fast[3], Child: child}
+			rootN.Build()
+			md, err := rootN.WriteLinks(dir, dsse)
+			return md, dir, err
+		}
+		good, goodDir, e1 := build("good", false)
+		bad, badDir, e2 := build("bad", true)
+		if e1 != nil || e2 != nil {
+			c.Inconclusive("harness: cannot build nestings")
+			continue
+		}
+		c.Begin(id)
+		var verdicts []string
+		bad1 := false
+		for k := 0; k < 30; k++ {
+			ob := Verify(VerifyArgs{Layout: bad, Keys: gen.KeyMap(fast[0]), LinkDir: badDir, Cwd: c.WorkDir})
+			og := Verify(VerifyArgs{Layout: good, Keys: gen.KeyMap(fast[0]), LinkDir: goodDir, Cwd: c.WorkDir})
+			c.Eval(2)
+			verdicts = append(verdicts, fmt.Sprintf("bad=%v good=%v", ob.Accepted(), og.Accepted()))
+			if ob.Accepted() || !og.Accepted() {
+				bad1 = true
+				c.Violation(fmt.Sprintf("the verdict for a sound nested supply chain depends on how many failing verifications the process has seen (round %d of alternating broken/sound chains)", k+1), id, map[string]any{"dsse": dsse, "verdicts": verdicts, "error_of_the_sound_chain": errStr(og.Err)})
+				break
+			}
+		}
+		c.End(id)
+		c.Class("failure-history", dsse)
+		if !bad1 {
+			ok++
+		}
+	}
+	c.Obs("failure_histories_all_as_expected", ok)
+}
+
 func variantClass(v c10Variant) string {
 	s := fmt.Sprintf("threshold %d, disagreeing surplus link=%v, sublayout=%v, dsse=%v, rundir=%v", v.Threshold, v.Disagree, v.Sublayout, v.DSSE, v.RunDir)
 	if v.LayoutKeys != "" {
@@ -545,6 +617,9 @@ func variantClass(v c10Variant) string {
 	if v.Minority {
 		s += ", third valid link disagrees"
 	}
+	if v.MultiAlg {
+		s += ", two digest algorithms of which one agrees"
+	}
 	return s
 }
 
@@ -552,7 +627,7 @@ func init() {
 	core.Register(&core.Property{
 		ID:    "C10",
 		Level: "exploration",
-		Rule: "chains biased to the anchors: step with one key-authorized and one certificate-authorized link (threshold 0, 1 and 2; the two links agreeing or disagreeing), certificate constraint lists that are not sorted, rules / expected command / inspection run with {PRODUCT} and {MARK} markers, a link whose artifact path needs cleaning (./bin//app) consumed by a MATCH rule, optionally two steps delegated to sublayouts of two functionaries, two supplied layout keys (both signed / second without a signature / second with a corrupt signature), an inspection executable given by a relative path, three valid links of which one disagrees; the layout has an intermediate CA of its own and the caller passes a list of additional intermediates with spare capacity whose backing array is compared before/after; 2 wrappers x 2 entry points; all histories of length<=2 plus 12 of length 3 (quick) / all of length<=3 plus 30 of length 4 (thorough) over the dictionaries {none, p (accepting), q (rejecting), r (a value containing another parameter's marker)} on ONE in-memory layout object: every outcome (verdict, summary, executed marker) must equal the outcome of a freshly loaded copy, and the serialisation of the layout object (payload, signatures, dumped envelope), of the key map and of the dictionary, and (entry point with a run directory of its own) the content of the inspected directory must be unchanged after every call; two sound chains whose layouts define one key id with different key material are verified alternately (6 verifications, all accepted); each baseline is repeated R=16 (quick) / 64 (thorough) times and each history R/4 times with fresh maps. " +
+		Rule: "chains biased to the anchors: step with one key-authorized and one certificate-authorized link (threshold 0, 1 and 2; the two links agreeing or disagreeing), certificate constraint lists that are not sorted, rules / expected command / inspection run with {PRODUCT} and {MARK} markers, a link whose artifact path needs cleaning (./bin//app) consumed by a MATCH rule, optionally two steps delegated to sublayouts of two functionaries, two supplied layout keys (both signed / second without a signature / second with a corrupt signature), an inspection executable given by a relative path, three valid links of which one disagrees, a MATCH rule between artifacts that carry two digest algorithms of which only one agrees; the layout has an intermediate CA of its own and the caller passes a list of additional intermediates with spare capacity whose backing array is compared before/after; 2 wrappers x 2 entry points; all histories of length<=2 plus 12 of length 3 (quick) / all of length<=3 plus 30 of length 4 (thorough) over the dictionaries {none, p (accepting), q (rejecting), r (a value containing another parameter's marker)} on ONE in-memory layout object: every outcome (verdict, summary, executed marker) must equal the outcome of a freshly loaded copy, and the serialisation of the layout object (payload, signatures, dumped envelope), of the key map and of the dictionary, and (entry point with a run directory of its own) the content of the inspected directory must be unchanged after every call; two sound chains whose layouts define one key id with different key material are verified alternately (6 verifications, all accepted); a sound nested chain verified alternately with a broken one, 30 rounds (failures leave nothing behind); each baseline is repeated R=16 (quick) / 64 (thorough) times and each history R/4 times with fresh maps. " +
 			"non-trivial = history of length>=2 or R>=2 with >=2 links in a step; distinct = (variant, history)",
 		Assumptions: []string{"the iteration order taken inside the library is not observable; reported are R, the number of distinct outcomes per case and the number of distinct orders a same-sized probe map showed in the same process"},
 		Workers:     func(string) int { return 16 },
